@@ -23,13 +23,26 @@
 (* returns the object parsed earlier) -> FreshIdentity / ReturnedFresh;    *)
 (* SharedIterObject = TRUE (a generator re-uses the object it yielded      *)
 (* before) -> NoSpontaneousChange.                                         *)
+(* Failing calls (hardening round 6, notes/SIZE_STRESS.md part 5):         *)
+(* ParseFault(d, at) / ListFault(d, at) = Deb822(x) / list(iter_paragraphs *)
+(* (x)) with a faulting twin x of document d: the caller's object raises   *)
+(* when its first / a middle / its last line is requested (for Deb822(x):  *)
+(* of the first paragraph).  The caller's exception comes out and nothing  *)
+(* else happens: no object is handed out, the objects and generators the   *)
+(* caller holds are what they were (FaultsChangeNothing), and the history  *)
+(* goes on.  Enabled by FaultPos # {} (own, smaller configuration).         *)
+(* Negative control: FaultSharesStorage = TRUE (the half-read paragraph    *)
+(* lands in the storage of an object of the same document handed out       *)
+(* earlier) -> NoSpontaneousChange.                                        *)
 (* The closed configuration emits the LTS (EDGE lines: call, returned      *)
 (* object, content of every object afterwards) which the harness replays   *)
 (* into the real classes with the six input forms.                         *)
 (***************************************************************************)
 EXTENDS Deb822Reader
 
-CONSTANTS MaxObjs, MaxIters, Kinds, SharedResults, SharedIterObject
+CONSTANTS MaxObjs, MaxIters, Kinds, SharedResults, SharedIterObject,
+          FaultPos,            \* positions of the failing line request ({}: no failing calls in this configuration)
+          FaultSharesStorage   \* design: FALSE
 
 VARIABLES heap, its, last
 cvars == <<heap, its, last>>
@@ -104,10 +117,22 @@ Mutate(o, kind) ==
     /\ UNCHANGED its
     /\ CEdge("mutate", <<o, kind>>)
 
+\* a call that fails inside the caller's own line source: his exception comes out, nothing is handed out or changed
+Faulted(op, d, at) ==
+    /\ heap' = IF FaultSharesStorage /\ \E o \in 1..Len(heap) : heap[o].d = d
+               THEN LET o == CHOOSE o \in 1..Len(heap) : heap[o].d = d IN [heap EXCEPT ![o].val = Tail(@)]
+               ELSE heap
+    /\ UNCHANGED its
+    /\ last' = [op |-> "fault", ret |-> 0, d |-> d, pos |-> 0]
+    /\ CEdge(op, <<d, at>>)
+ParseFault(d, at) == Faulted("parse_fault", d, at)
+ListFault(d, at)  == Faulted("list_fault", d, at)
+
 CNext == /\ UNCHANGED vars
          /\ \/ \E d \in 1..NDocs : ParseOneCall(d) \/ IterOpen(d)
             \/ \E i \in 1..Len(its) : IterNext(i)
             \/ \E o \in 1..Len(heap), kind \in Kinds : Mutate(o, kind)
+            \/ \E d \in 1..NDocs, at \in FaultPos : ParseFault(d, at) \/ ListFault(d, at)
 CSpec == CInit /\ [][CNext]_<<vars, cvars>>
 
 ReturnedFresh == last.op \in {"parse", "next"} =>
@@ -115,6 +140,7 @@ ReturnedFresh == last.op \in {"parse", "next"} =>
                     /\ ~heap[last.ret].mut
 FreshIdentity == [][last'.op \in {"parse", "next"} => last'.ret = Len(heap) + 1]_<<vars, cvars>>
 NoSpontaneousChange == [][\A o \in 1..Len(heap) : heap'[o] # heap[o] => (last'.op = "mutate" /\ last'.ret = o)]_<<vars, cvars>>
+FaultsChangeNothing == [][last'.op = "fault" => (heap' = heap /\ its' = its)]_<<vars, cvars>>
 \* the two paragraphs of document 1 carry the same names: they must still be two contents
 SameNamesDistinct == LET m == Model(1) IN /\ [i \in 1..Len(m[1]) |-> m[1][i].k] = [i \in 1..Len(m[2]) |-> m[2][i].k]
                                            /\ m[1] # m[2]
